@@ -48,7 +48,7 @@ theorem C26_wire (ack : Bool) (payload : Bytes) (h8 : payload.length = 8) :
 theorem C26_send (c : Conn) (d : Bytes) (hopen : c.cstate ≠ .CLOSED) (hmax : 8 ≤ c.maxOutFrame) :
     (d.length ≠ 8 → wp (ping d) (fun _ _ => False) (fun e c' => c' = c) c) ∧
     (d.length = 8 → ∃ b, (Frame.ping false d).serialize? = some b ∧
-        wp (ping d) (fun _ c' => c' = { c with out := c.out ++ b }) (fun _ _ => False) c) := by
+        wp (ping d) (fun _ c' => c' = { c with out := c.out ++ b, sent := c.sent ++ [Frame.ping false d] }) (fun _ _ => False) c) := by
   have htab : connTable c.cstate .SEND_PING = some c.cstate := by
     cases h : c.cstate <;> simp_all [connTable]
   have hc : ({ c with cstate := c.cstate } : Conn) = c := by cases c; rfl
